@@ -107,14 +107,14 @@ def gen_cases(prop, tier, rng):
     out.insert(0, conc_case("corpus-F2", "spur", 1, 4, [[f"I:{hx(b'ab')}"], [f"I:{hx(b'cd')}"]], [0, 1] * 40))
     return out
 
-def run_driver(profile, cases_file, trace_file):
+def run_driver(profile, cases_file, trace_file, timeout_ms=None):
     exe = os.path.join(TARGET, profile, "concdriver")
     skip = None
     open(trace_file, "w").close()
     mon_all = []
     for _ in range(50):   # the driver exits with 3 after a deadlock/timeout: continue behind the offending case
         tmp = trace_file + ".part"
-        cmd = [exe, "run", cases_file, tmp] + (["--skip-to", skip] if skip else [])
+        cmd = [exe, "run", cases_file, tmp] + (["--skip-to", skip] if skip else []) + (["--timeout-ms", str(timeout_ms)] if timeout_ms else [])
         r = subprocess.run(cmd, stdout=subprocess.PIPE, stderr=subprocess.STDOUT, text=True, timeout=3000)
         if os.path.exists(tmp):
             txt = open(tmp, errors="replace").read()
@@ -167,7 +167,7 @@ def engine(prop, spec, tier, seed, work):
     cases = gen_cases(prop, tier, rng)
     cf = os.path.join(work, "cases.conc"); open(cf, "w").write("\n".join(cases) + "\n")
     by_id = {c.split(" ", 2)[1]: c for c in cases}
-    problems, nev, ok = [], 0, 0
+    problems, nev, ok, retried = [], 0, 0, 0
     nontrivial = set()
     mons_wanted = spec.get("monitors", [prop])
     for prof in ("debug", "release"):
@@ -183,6 +183,18 @@ def engine(prop, spec, tier, seed, work):
             if p[0] == "OK":
                 ok += 1; nev += int(p[2].split("=")[1])
             elif p[0] == "BAD":
+                if "ended in TIMEOUT" in l and p[1] in by_id:
+                    # "nothing happened for 5 s" can be a loaded machine instead of a livelock: once more, alone, with 60 s
+                    retried += 1
+                    cf1 = os.path.join(work, f"retry{retried}.conc"); open(cf1, "w").write(by_id[p[1]] + "\n")
+                    tf1 = os.path.join(work, f"retry{retried}.{prof}.trace"); rep1 = os.path.join(work, f"retry{retried}.{prof}.rep")
+                    mons1 = run_driver(prof, cf1, tf1, timeout_ms=60000)
+                    subprocess.run([CREPLAY, cf1, tf1, rep1], timeout=600)
+                    lines1 = [x for x in open(rep1)] if os.path.exists(rep1) else []
+                    if lines1 and all(x.startswith("OK") for x in lines1):
+                        ok += 1; mons += mons1
+                        continue
+                    l = (lines1[0] if lines1 else l)
                 problems.append(("mismatch", p[1], {"profile": prof, "line": l.strip()}))
         for m in mons:
             p = m.split(" ", 3)
@@ -231,6 +243,8 @@ def engine(prop, spec, tier, seed, work):
           "traces_validated_against_impl": ok, "events_replayed": nev, "samples": cases[:3] + cases[-2:], "wall_s_TM": round(time.time() - t0, 1)}
     if stress is not None:
         ev["free_running"] = stress
+    if retried:
+        ev["timeouts_retried_alone_with_60s"] = retried
     if replay:
         ev["_replay"] = replay
     return ev, problems, {}
@@ -243,4 +257,4 @@ def register(PROPS):
     PROPS["C03"] = dict(common, monitors=["C03", "C07"])
     PROPS["C05"] = dict(common, monitors=["C05"], orderings=True, props_extra=["C05R"],
                         trusted_extra=common["trusted_extra"] + ["C05 data-race clause: coq/Sync.v is a hand-written release/acquire view machine (promise-free; SeqCst treated as AcqRel; locks as release/acquire channels) running a hand-abstracted synchronisation skeleton of the arena; only the 16 atomic orderings and two textual-order facts are extracted from the source (tools/extract_orderings.py, which fails on any atomic access it cannot attribute)"])
-    PROPS["C09"] = dict(common, monitors=["C09"])
+    PROPS["C09"] = dict(common, monitors=["C09"], props_extra=["C09L"])
